@@ -26,6 +26,7 @@ func c12Datasets() [][]model.Row {
 		{{"a": "x"}, {"b": "y"}, {}, {"a": "x", "b": "y"}, {"a": "z", "b": "y"}},
 		{{"a": "x", "b": "é", "c": ""}, {"a": "x", "b": "q\"\n", "c": "1"}, {"a": "y", "b": "é", "c": "1"}},
 		{{"a": "only"}},
+		{{"a": "x", "count": "7", "b": "y"}, {"a": "x", "count": "8"}, {"a": "z", "count": "7", "b": "y"}},
 	}
 	// a sample of the small-scope product: every dataset of exactly 2 rows over the 9 shapes of C01's space A
 	for _, d := range spaceADatasets(2) {
@@ -139,7 +140,7 @@ func c12Texts(thorough bool) ([]*model.Expr, [][]string) {
 	trees := model.Trees(leaves, d, 2)
 	trees = append(trees, model.Eq("a", "1"), model.Or(model.Eq("a", "1"), model.Eq("b", "2")), model.Not(model.Eq("c", "quux")), model.Or(model.Eq("a", "x"), model.Not(model.Eq("a", "x"))))
 	gbs := lists([]string{"a", "b", "c"}, 0, 2)
-	gbs = append(gbs, []string{"c", "b", "a"}, []string{"a", "a", "b"}, []string{"zz"}, []string{"a", "zz"})
+	gbs = append(gbs, []string{"c", "b", "a"}, []string{"a", "a", "b"}, []string{"zz"}, []string{"a", "zz"}, []string{"count"}, []string{"count", "a"}, []string{"a", "count", "b"})
 	return trees, gbs
 }
 
@@ -367,7 +368,7 @@ func c12Worker(ctx *rt.Ctx, job *rt.Job) []*rt.Violation {
 					}
 				}
 			}
-			if di < 4 {
+			if di < 5 {
 				if m, c := c12Overlap(w, rows, opt, ctx.Cov); m != "" {
 					vs = append(vs, rt.NewViolation("C12", "overlap", c.sig(), c, "%s", m))
 				}
@@ -396,7 +397,7 @@ func c12Run(ctx *rt.Ctx) []*rt.Violation {
 	outs := rt.RunJobs(ctx, jobs, rt.SpawnOpt{})
 	vs := rt.Collect(ctx, outs, nil)
 	trees, gbs := c12Texts(ctx.Thorough())
-	ctx.Cov.Note("rule", fmt.Sprintf("%d datasets (4 fixed incl. rows lacking columns and odd strings + all 81 two-row datasets of the 9-shape space) x %d DSN option strings {-, preload} x {-, lrucache size 0, lrucache ample} x %d expressions x %d group-by lists (length 0..3, repeated and unknown columns): db.Query through database/sql compared with Index.Execute on a copy of the same file: Columns, ColumnTypes (TEXT.../BIGINT, string/int64), every row scanned into (string..., int64), order, counts, error iff the library errs; on the 4 fixed datasets additionally every ordered pair of 8 texts as two result sets open at the same time on one handle (read in both orders), and 4 placeholder texts (also below NOT) executed through one prepared statement and the direct path with every ordered pair of argument lists (l1, l2, l1) against the literal text; non-trivial = grouped queries, overlap and bound cases", len(c12Datasets()), len(c12DSNOpts), len(trees), len(gbs)))
+	ctx.Cov.Note("rule", fmt.Sprintf("%d datasets (5 fixed incl. rows lacking columns, odd strings and a column literally named count + all 81 two-row datasets of the 9-shape space) x %d DSN option strings {-, preload} x {-, lrucache size 0, lrucache ample} x %d expressions x %d group-by lists (length 0..3, repeated and unknown columns): db.Query through database/sql compared with Index.Execute on a copy of the same file: Columns, ColumnTypes (TEXT.../BIGINT, string/int64), every row scanned into (string..., int64), order, counts, error iff the library errs; on the 4 fixed datasets additionally every ordered pair of 8 texts as two result sets open at the same time on one handle (read in both orders), and 4 placeholder texts (also below NOT) executed through one prepared statement and the direct path with every ordered pair of argument lists (l1, l2, l1) against the literal text; non-trivial = grouped queries, overlap and bound cases", len(c12Datasets()), len(c12DSNOpts), len(trees), len(gbs)))
 	ctx.Assumef("the library result is the oracle (it is itself checked by C01/C02); query texts are produced by the formatter (checked by C10)")
 	return vs
 }
